@@ -321,7 +321,7 @@ func checkC06(ctx *Ctx) *Result {
 			if pa.Start != "entry" || pa.End != "return" || len(pa.Rets) != 3 || !pa.Rets[2].IsConst("true") {
 				continue
 			}
-			if pa.Has("bin:==(index(param:str, 0), 91)", true) {
+			if pa.Has("bin:==(index(param:str, 0), 91)", true) || pa.Val(`call:strings.HasPrefix(param:str, "[")`) == 1 {
 				h := fieldOf(pa.Rets[0], "Value").Key()
 				// str[1:IndexByte(str, ']')], or the same text taken from the
 				// tail: str[1:][:IndexByte(str[1:], ']')] (strings.Cut on the tail;
